@@ -21,13 +21,19 @@
 ** part=ops       copy(x) of a stack and of a heap x; assign(y,x) into a zeroed fresh object,
 **                a default-constructed one, and (ALL ordered pairs) one holding another
 **                value; swap(a,b) for ALL ordered pairs (heap x heap, and stack x stack
-**                where the type permits), swap(a,a).
+**                where the type permits, and two elements embedded in an Array with a
+**                bystander between them), swap(a,a); sort() of an Array holding the whole grid
+**                (it exchanges elements with swap) in 4 initial orders.
+**                Domains raw, raw1, raw3, raw4, raw7, raw9, raw12, raw16, raw20, raw21 are plain
+**                structs of that many bytes without Cmp/Hash/Assign/Swap instances: the default
+**                memcmp / hash_data / memcpy / memswap paths with every tail length.
 **
-** Parameters: part=all|comma list   dom=all|comma list of int,float,string,type,raw,ref,box
+** Parameters: part=all|comma list   dom=all|comma list of int,float,string,type,raw,raw1..raw21,ref,box
+**             (rawall = every raw* domain)
 **             grid=small|large
 ** Case keys (replayable): "hashdata <pat> <len> <align>", "values <dom> <i> <class>",
 **   "pairs <dom> <i> <j>", "copy <dom> <i> <src>", "assign <dom> <i> <j>" (j = -1 zeroed
-**   fresh, -2 default-constructed fresh), "swap <dom> <i> <j> <heap|stack>".
+**   fresh, -2 default-constructed fresh), "swap <dom> <i> <j> <heap|stack|array>", "sort <dom> <order>".
 */
 
 #include "vf_cmp.h"
@@ -84,6 +90,7 @@ static int part_on(const char* list, const char* name) {
   size_t l = strlen(name);
   for (const char* p = list; p && *p; ) {
     if (!strncmp(p, name, l) && (p[l] == ',' || p[l] == 0)) return 1;
+    if (!strncmp(p, "rawall", 6) && (p[6] == ',' || p[6] == 0) && !strncmp(name, "raw", 3)) return 1;
     p = strchr(p, ','); if (p) p++;
   }
   return 0;
@@ -149,6 +156,9 @@ struct hdom {
   int embed;                            /* may be stored in containers / created with new() */
   int is_ptr;                           /* Ref or Box */
   int can_stack_swap;
+  int raw;                              /* one of the plain raw-byte struct types (RW selected) */
+  int no_tree_key;                      /* key size would misalign the value header inside a Tree node */
+  int can_sort;                         /* Array sort has a C reference order */
 };
 static struct hdom H;
 
@@ -156,16 +166,16 @@ static void h_desc(int i, char* buf, size_t cap) {
   if (H.type == Int) int_desc(i, buf, cap);
   else if (H.type == Float) flt_desc(i, buf, cap);
   else if (H.type == String) str_desc(i, buf, cap);
-  else if (H.type == Raw8) raw_desc(i, buf, cap);
+  else if (H.raw) raw_desc(i, buf, cap);
   else snprintf(buf, cap, "target#%d", i);
 }
 
-/* the 8 payload bytes of grid value i (what $(T, ...) would copy into a stack object) */
+/* the payload bytes of grid value i (what $(T, ...) would copy into a stack object): 8, or the struct size */
 static void h_payload(int i, void* out) {
   if (H.type == Int) memcpy(out, &iv[i], 8);
   else if (H.type == Float) memcpy(out, &fv[i], 8);
   else if (H.type == String) { char* s = sv[i]; memcpy(out, &s, sizeof s); }
-  else if (H.type == Raw8) memcpy(out, rv[i], 8);
+  else if (H.raw) memcpy(out, RW->v[i], RW->size);
   else { var t = targets[i]; memcpy(out, &t, sizeof t); }
 }
 
@@ -174,7 +184,7 @@ static int h_same(var x, int i) {
   if (H.type == Int) return c_int(x) == iv[i];
   if (H.type == Float) return c_float(x) == fv[i];
   if (H.type == String) return strcmp(c_str(x), sv[i]) == 0;
-  if (H.type == Raw8) return memcmp(x, rv[i], 8) == 0;
+  if (H.raw) return memcmp(x, RW->v[i], RW->size) == 0;
   return deref(x) == targets[i];
 }
 
@@ -182,8 +192,16 @@ static int h_refeq(int i, int j) {
   if (H.type == Int) return iv[i] == iv[j];
   if (H.type == Float) return fv[i] == fv[j];
   if (H.type == String) return strcmp(sv[i], sv[j]) == 0;
-  if (H.type == Raw8) return memcmp(rv[i], rv[j], 8) == 0;
+  if (H.raw) return memcmp(RW->v[i], RW->v[j], RW->size) == 0;
   return targets[i] == targets[j];
+}
+
+/* C reference order (only for the domains that can be sorted) */
+static int h_refcmp(int i, int j) {
+  if (H.type == Int) return int_ref(i, j);
+  if (H.type == Float) return flt_ref(i, j);
+  if (H.type == String) return str_ref(i, j);
+  return raw_ref(i, j);
 }
 
 static const char* h_feat(int i, int j) {
@@ -192,9 +210,9 @@ static const char* h_feat(int i, int j) {
 }
 
 /* a stack-class object in caller storage: exactly what $(T, payload) builds */
-#define STACKBUF(name) char name[sizeof(struct Header) + 16] = {0}
+#define STACKBUF(name) char name[sizeof(struct Header) + 32] __attribute__((aligned(16))) = {0}
 static var mk_stack(char* buf, int i) {
-  memset(buf, 0, sizeof(struct Header) + 16);
+  memset(buf, 0, sizeof(struct Header) + 32);
   var x = header_init(buf, H.type, AllocStack);
   h_payload(i, x);
   return x;
@@ -245,6 +263,7 @@ static void value_case(int i, int c) {
   const char* cls = vclasses[c];
   if (!begin_case(ds, "values %s %d %s", H.name, i, cls)) return;
   if (c != 1 && !H.embed) { vf.executions--; return; }
+  if (c == 8 && H.no_tree_key) { vf.executions--; return; }
   STACKBUF(wb); STACKBUF(fb);
   var w = mk_stack(wb, i);
   var f = mk_stack(fb, filler_of(i));
@@ -406,6 +425,67 @@ static void swap_case(int i, int j, int stackmode) {
   if (!stackmode) { drop_raw(a); drop_raw(b); }
 }
 
+/* two elements embedded in an Array (with a bystander between them) are swapped in place */
+static void swap_array_case(int i, int j) {
+  char ds[96], da[40], db[40]; h_desc(i, da, sizeof da); h_desc(j, db, sizeof db);
+  snprintf(ds, sizeof ds, "a=%s b=%s", da, db);
+  const char* cls = "swap-array-elems";
+  if (!begin_case(ds, "swap %s %d %d array", H.name, i, j)) return;
+  STACKBUF(wa); STACKBUF(wb); STACKBUF(wf);
+  var vi = mk_stack(wa, i), vj = mk_stack(wb, j);
+  int fi = filler_of(i);
+  var vfil = mk_stack(wf, fi);
+  uint64_t hi = hash(vi), hj = hash(vj), hf = hash(vfil);
+  var arr = new_raw(Array, H.type);
+  push(arr, vi); push(arr, vfil); push(arr, vj);
+  var ex = VF_CATCH(swap(get(arr, $I(0)), get(arr, $I(2))));
+  vf.evaluations++;
+  if (ex) vf_violation(L(H.name, cls, "raises"), NULL, "swap raised %s", vf_exc_name(ex));
+  else {
+    var a = get(arr, $I(0)), m = get(arr, $I(1)), b = get(arr, $I(2));
+    vf.evaluations += 3;
+    if (!h_same(a, j) || !h_same(b, i)) vf_violation(L(H.name, cls, "values-not-exchanged"), NULL, "after swap(arr[0],arr[2]) the two elements do not hold each other's old value");
+    else { judge(a, vj, hj, j, cls); judge(b, vi, hi, i, cls); }
+    if (!h_same(m, fi) || hash(m) != hf || len(arr) != 3) vf_violation(L(H.name, cls, "bystander-changed"), NULL, "swap(arr[0],arr[2]) changed arr[1] or the length");
+    if (!h_refeq(i, j)) vf.nontrivial++;
+  }
+  del_raw(arr);
+}
+
+/* sort(Array of the whole grid) exchanges elements with swap(): the result must be the grid in reference order */
+static void sort_case(int order) {
+  int n = H.n;
+  if (!begin_case(NULL, "sort %s %d", H.name, order)) return;
+  const char* cls = "array-sort";
+  int* sorted = malloc(sizeof(int) * n);
+  for (int i = 0; i < n; i++) sorted[i] = i;
+  for (int i = 1; i < n; i++) { int v = sorted[i], j = i; while (j > 0 && h_refcmp(sorted[j-1], v) > 0) { sorted[j] = sorted[j-1]; j--; } sorted[j] = v; }
+  var arr = new_raw(Array, H.type);
+  for (int q = 0; q < n; q++) {
+    /* 0 grid order, 1 reversed grid order, 2 already sorted, 3 sorted descending */
+    int i = order == 0 ? q : order == 1 ? n - 1 - q : order == 2 ? sorted[q] : sorted[n - 1 - q];
+    STACKBUF(wb); push(arr, mk_stack(wb, i));
+  }
+  var ex = VF_CATCH(sort(arr));
+  vf.evaluations++;
+  if (ex) vf_violation(L(H.name, cls, "raises"), NULL, "sort raised %s", vf_exc_name(ex));
+  else if (len(arr) != (size_t)n) vf_violation(L(H.name, cls, "length-changed"), NULL, "len = %zu after sorting %d elements", len(arr), n);
+  else {
+    for (int q = 0; q < n; q++) {
+      vf.evaluations++;
+      if (!h_same(get(arr, $I(q)), sorted[q])) {
+        char ds[64]; h_desc(sorted[q], ds, sizeof ds);
+        vf_violation(L(H.name, cls, "not-the-sorted-permutation"), NULL, "after sort position %d of %d does not hold %s (the value the reference order puts there)", q, n, ds);
+        break;
+      }
+    }
+    vf.nontrivial++;
+  }
+  if (vf_want_sample()) vf_sample("%s (%d elements)", ckey, n);
+  del_raw(arr);
+  free(sorted);
+}
+
 static void part_ops(void) {
   int n = H.n;
   for (int i = 0; i < n; i++) { copy_case(i, 0); copy_case(i, 1); }
@@ -414,7 +494,9 @@ static void part_ops(void) {
   for (int i = 0; i < n; i++) for (int j = 0; j < n; j++) {
     swap_case(i, j, 0);
     if (H.can_stack_swap) swap_case(i, j, 1);
+    if (H.embed) swap_array_case(i, j);
   }
+  if (H.embed && H.can_sort) for (int order = 0; order < 4; order++) sort_case(order);
 }
 
 /* ---- Type: static type objects against heap-allocated twins with the same name ------------------- */
@@ -458,10 +540,10 @@ static void part_types(const char* parts) {
 static void set_domain(const char* name) {
   memset(&H, 0, sizeof H);
   H.name = name; H.embed = 1; H.can_stack_swap = 1;
-  if (!strcmp(name, "int")) { H.type = Int; H.n = ni; }
-  else if (!strcmp(name, "float")) { H.type = Float; H.n = fn; }
-  else if (!strcmp(name, "string")) { H.type = String; H.n = sn; H.can_stack_swap = 0; }
-  else if (!strcmp(name, "raw")) { H.type = Raw8; H.n = rn; }
+  if (!strcmp(name, "int")) { H.type = Int; H.n = ni; H.can_sort = 1; }
+  else if (!strcmp(name, "float")) { H.type = Float; H.n = fn; H.can_sort = 1; }
+  else if (!strcmp(name, "string")) { H.type = String; H.n = sn; H.can_stack_swap = 0; H.can_sort = 1; }
+  else if (raw_find(name)) { RW = raw_find(name); H.type = RW->type; H.n = RW->n; H.raw = 1; H.no_tree_key = RW->size % 8 != 0 && !vf_param_i("oddtree", 0); H.can_sort = 1; }
   else if (!strcmp(name, "ref")) { H.type = Ref; H.n = NTARGETS; H.is_ptr = 1; }
   else if (!strcmp(name, "box")) { H.type = Box; H.n = NTARGETS; H.is_ptr = 1; H.embed = 0; }
   else { fprintf(stderr, "h_hash: unknown domain %s\n", name); _exit(2); }
@@ -480,7 +562,7 @@ int main(int argc, char** argv) {
 
   if (part_on(parts, "hashdata")) part_hashdata();
 
-  static const char* all[] = { "int", "float", "string", "raw", "ref", "box" };
+  static const char* all[] = { "int", "float", "string", "raw", "raw1", "raw3", "raw4", "raw7", "raw9", "raw12", "raw16", "raw20", "raw21", "ref", "box" };
   static char phase[32];
   for (size_t q = 0; q < sizeof all / sizeof all[0]; q++) {
     if (!part_on(doms, all[q])) continue;
